@@ -193,51 +193,7 @@ func runC01(c *Ctx) {
 		c.verdict(len(bad) == 0, construct, c.at(connects[0]), "Back().Header.BlockHash() / Back().Height / Back().Header of one Back() call per iteration", join(bad), c.at(connects[0]))
 	})
 
-	c.rule("C01.G2", "checkHeaderSanity is a validator: it returns nil only if blockchain.CheckBlockHeaderContext=nil and blockchain.CheckBlockHeaderSanity=nil, both on its header parameter with BehaviorFlags zero (BFNone) and PowLimit/TimeSource from b.cfg", func() {
-		fn := c.fn("(*neutrino.blockManager).checkHeaderSanity")
-		ctxF := c.funcObj(pBlockchain, "CheckBlockHeaderContext")
-		sanF := c.funcObj(pBlockchain, "CheckBlockHeaderSanity")
-		ctxCalls := find(fn, callTo(ctxF))
-		sanCalls := find(fn, callTo(sanF))
-		c.nilReturnsGuarded(fn, errNil("CheckBlockHeaderContext", ctxCalls, 0), 1)
-		c.nilReturnsGuarded(fn, errNil("CheckBlockHeaderSanity", sanCalls, 0), 1)
-		// argument shapes
-		hdrParam := fn.Params[1]
-		okArgs := true
-		detail := ""
-		for _, in := range append(append([]ssa.Instruction{}, ctxCalls...), sanCalls...) {
-			cc := ir.CallOf(in)
-			if cc.Args[0] != ssa.Value(hdrParam) {
-				okArgs = false
-				detail += "validator at " + c.at(in) + " is not applied to the header parameter; "
-			}
-			for i, a := range cc.Args {
-				pt := cc.Signature().Params().At(i).Type()
-				if n, ok := pt.(*types.Named); ok && n.Obj().Name() == "BehaviorFlags" {
-					if k, isC := ir.ConstInt(a); !isC || k != 0 {
-						okArgs = false
-						detail += "validator at " + c.at(in) + " is called with behaviour flags other than the zero constant BFNone (flags can disable proof-of-work checks); "
-					}
-				}
-			}
-		}
-		powLimit := c.field(pChaincfg, "Params", "PowLimit")
-		timeSrc := c.field("neutrino", "blockManagerCfg", "TimeSource")
-		for _, in := range sanCalls {
-			cc := ir.CallOf(in)
-			if !loadsField(powLimit)(cc.Args[1]) {
-				okArgs = false
-				detail += "PowLimit argument at " + c.at(in) + " is not cfg.ChainParams.PowLimit; "
-			}
-			if !loadsField(timeSrc)(cc.Args[2]) {
-				okArgs = false
-				detail += "time source argument at " + c.at(in) + " is not cfg.TimeSource; "
-			}
-		}
-		c.verdict(okArgs && len(ctxCalls) > 0 && len(sanCalls) > 0, c.nm(fn)+" | validator argument shapes", c.P.Pos(fn.Pos()),
-			"both btcd validators run on the header parameter with zero flags, cfg PowLimit and cfg TimeSource", detail,
-			c.ats(append(append([]ssa.Instruction{}, ctxCalls...), sanCalls...))...)
-	})
+	c.rule("C01.G2", headerSanityValidatorDoc, func() { c.headerSanityValidator() })
 
 	c.rule("C01.G3", headersLinkedDoc, func() { c.headersLinked() })
 
@@ -567,6 +523,8 @@ func runC01(c *Ctx) {
 	})
 
 	c.rule("C01.V5", "a fork cannot displace a checkpointed header: the fork height is measured against the last checkpoint the accepted chain has passed: "+checkpointFloorDoc, func() { c.checkpointFloor() })
+
+	c.rule("C01.V8", "a side branch is validated at its own heights: a branch header checked with the wrong parent height sees the wrong retarget boundary and is accepted with difficulty bits the retarget rules do not allow: "+branchOwnAncestorsDoc, func() { c.branchOwnAncestors() })
 
 	c.rule("C01.V6", "the context a header is validated in is its real ancestor chain: lightHeaderCtx.RelativeAncestorCtx(distance) looks up exactly the height l.height - distance (in the header list, in the store, and as the height of the returned context; not clamped or adjusted: below genesis there is no ancestor and btcd's median-time and difficulty walks rely on nil there), builds the returned context from the header it found, and returns nil when the store has no such header; newLightHeaderCtx records the height it is given and the header's own bits and timestamp, which Height / Bits / Timestamp return", func() {
 		fn := c.fn("(*neutrino.lightHeaderCtx).RelativeAncestorCtx")
@@ -955,4 +913,53 @@ func (c *Ctx) headersLinked() {
 		}
 	})
 	c.mustFollowIter(f2, "each header of the message", starts, oneOf(cmps), "blockHeader.PrevBlock != lastHeader comparison", firstCut, 1)
+}
+
+const headerSanityValidatorDoc = "checkHeaderSanity is a validator: it returns nil only if blockchain.CheckBlockHeaderContext=nil and blockchain.CheckBlockHeaderSanity=nil, both on its header parameter with BehaviorFlags zero (BFNone) and PowLimit/TimeSource from b.cfg"
+
+// headerSanityValidator: see headerSanityValidatorDoc.
+func (c *Ctx) headerSanityValidator() {
+		fn := c.fn("(*neutrino.blockManager).checkHeaderSanity")
+		ctxF := c.funcObj(pBlockchain, "CheckBlockHeaderContext")
+		sanF := c.funcObj(pBlockchain, "CheckBlockHeaderSanity")
+		ctxCalls := find(fn, callTo(ctxF))
+		sanCalls := find(fn, callTo(sanF))
+		c.nilReturnsGuarded(fn, errNil("CheckBlockHeaderContext", ctxCalls, 0), 1)
+		c.nilReturnsGuarded(fn, errNil("CheckBlockHeaderSanity", sanCalls, 0), 1)
+		// argument shapes
+		hdrParam := fn.Params[1]
+		okArgs := true
+		detail := ""
+		for _, in := range append(append([]ssa.Instruction{}, ctxCalls...), sanCalls...) {
+			cc := ir.CallOf(in)
+			if cc.Args[0] != ssa.Value(hdrParam) {
+				okArgs = false
+				detail += "validator at " + c.at(in) + " is not applied to the header parameter; "
+			}
+			for i, a := range cc.Args {
+				pt := cc.Signature().Params().At(i).Type()
+				if n, ok := pt.(*types.Named); ok && n.Obj().Name() == "BehaviorFlags" {
+					if k, isC := ir.ConstInt(a); !isC || k != 0 {
+						okArgs = false
+						detail += "validator at " + c.at(in) + " is called with behaviour flags other than the zero constant BFNone (flags can disable proof-of-work checks); "
+					}
+				}
+			}
+		}
+		powLimit := c.field(pChaincfg, "Params", "PowLimit")
+		timeSrc := c.field("neutrino", "blockManagerCfg", "TimeSource")
+		for _, in := range sanCalls {
+			cc := ir.CallOf(in)
+			if !loadsField(powLimit)(cc.Args[1]) {
+				okArgs = false
+				detail += "PowLimit argument at " + c.at(in) + " is not cfg.ChainParams.PowLimit; "
+			}
+			if !loadsField(timeSrc)(cc.Args[2]) {
+				okArgs = false
+				detail += "time source argument at " + c.at(in) + " is not cfg.TimeSource; "
+			}
+		}
+		c.verdict(okArgs && len(ctxCalls) > 0 && len(sanCalls) > 0, c.nm(fn)+" | validator argument shapes", c.P.Pos(fn.Pos()),
+			"both btcd validators run on the header parameter with zero flags, cfg PowLimit and cfg TimeSource", detail,
+			c.ats(append(append([]ssa.Instruction{}, ctxCalls...), sanCalls...))...)
 }
